@@ -43,4 +43,9 @@ BASES = {
 def resolve(s):
     if s.startswith("@"):
         return BASES[s[1:]]
+    if s.startswith("r"):
+        if "+" in s:
+            a, b = s.split("+", 1)
+            return resolve(a) + resolve(b)
+        return bytes([int(s[1:3], 16)]) * int(s[4:])
     return b"" if s == "-" else bytes.fromhex(s)
